@@ -105,3 +105,66 @@ def tensor_with_identities(cx, N, name="R"):
                 acc = acc + R[a, a, c, d]
             R[N - 1, N - 1, c, d] = -acc
     return R
+
+
+def build_aggregate(cx, nmol=2, mult=1, with_bath=True, coupling=0.01, energies=None):
+    """concrete Aggregate of two-level molecules (built with the real numpy)"""
+    import quantarhei as qr
+    with cx.concrete():
+        mols = []
+        time = qr.TimeAxis(0.0, 8, 1.0)
+        if with_bath:
+            params = dict(ftype="OverdampedBrownian", reorg=20, cortime=100, T=300)
+            with qr.energy_units("1/cm"):
+                fc = qr.CorrelationFunction(time, params)
+        for i in range(nmol):
+            e = 1.0 + 0.1 * i if energies is None else energies[i]
+            m = qr.Molecule(name="M%d" % i, elenergies=[0.0, e])
+            m.position = [10.0 * i, 0.0, 0.0]
+            m.set_dipole(0, 1, [1.0, 0.3 * i, 0.0])
+            if with_bath:
+                m.set_transition_environment((0, 1), fc)
+            mols.append(m)
+        agg = qr.Aggregate(name="A", molecules=mols)
+        for i in range(nmol):
+            for j in range(i + 1, nmol):
+                agg.set_resonance_coupling(i, j, coupling / (j - i))
+        agg.build(mult=mult)
+    return agg
+
+
+def spectral_hamiltonian(cx, n, block=None, tag="H", handler_kw=None):
+    """real symmetric n x n matrix given by its eigen-decomposition H = S diag(w) S^T
+    (all such matrices, by the spectral theorem).  Symbolic mode: registered with the eigh
+    stub.  Replay mode: rebuilt with floats from the model's rotation parameters."""
+    blocks = block if block is not None else [list(range(n))]
+    if cx.sym:
+        from symnum import linalg, npatch
+        h = npatch.EIGH_HANDLER[0]
+        if h is None:
+            h = linalg.use_eigh(**(handler_kw or dict(eigen_equation=True, block=block, signs=False)))
+        H, w, S = linalg.spectral_symmetric(h, n, block=block, tag=tag)
+        return H, w, S
+    S = numpy.eye(n)
+    k = 0
+    for blk in blocks:
+        for ii in range(len(blk)):
+            for jj in range(ii + 1, len(blk)):
+                i, j = blk[ii], blk[jj]
+                c, s_ = cx.real("%s.S.c%d" % (tag, k), 0.3, 0.9), cx.real("%s.S.s%d" % (tag, k), 0.3, 0.9)
+                nrm = (c * c + s_ * s_) ** 0.5
+                c, s_ = c / nrm, s_ / nrm
+                G = numpy.eye(n)
+                G[i, i] = G[j, j] = c
+                G[i, j], G[j, i] = -s_, s_
+                S = S @ G
+                k += 1
+    w = numpy.array([cx.real("%s.w%d" % (tag, i), 0.0, 1.0) for i in range(n)])
+    order = [i for blk in blocks for i in blk]
+    ws = numpy.sort(w)
+    w2 = w.copy()
+    for pos, i in enumerate(order):
+        w2[i] = ws[pos]
+    H = (S * w2[None, :]) @ S.T
+    H = (H + H.T) / 2
+    return H, w2, S
